@@ -724,6 +724,39 @@ def rule_pos_append(ctx, R="C01/pos-append"):
                           "RVA taken from Buffer::position() is followed on every path by the append of exactly the described bytes",
                           "; ".join(msgs))
     ctx.floor(R, "position-derived location descriptors in fill_thread_stack", n, 1)
+    # ... which names the right bytes only if the append puts them AT the recorded position: position() is the image length and
+    # write_all changes the image by appending the caller's bytes and in no other way (no padding, no reservation ahead of them)
+    pb = ctx.body(R, "mem_writer::Buffer::position")
+    if pb is not None:
+        op = Origin(pb)
+        rets = [core(op._rvalue(st["r"], (bi, si), 0)) for bi, blk in enumerate(pb.blocks) for si, st in enumerate(blk["stmts"])
+                if st["k"] == "assign" and st["p"]["l"] == 0 and not st["p"]["proj"]]
+        ok = len(rets) == 1 and rets[0][0] == "call" and rets[0][1] == "std::vec::Vec::len" and strip(rets[0][2][0]) == ("field", ("param", 1), "inner")
+        ctx.check(ok, R, ("position", "is-image-length"), pb.where(0), "Buffer::position() is the length of the image", "Buffer::position() returns %s" % [show(r)[:80] for r in rets])
+    wb = ctx.body(R, "mem_writer::Buffer::write_all")
+    if wb is not None:
+        ow = Origin(wb)
+        READS = ("std::vec::Vec::len", "std::vec::Vec::capacity", "std::vec::Vec::is_empty", "mem_writer::Buffer::position", "mem_writer::Buffer::len", "mem_writer::Buffer::is_empty")
+        def _self_rooted(e):
+            e = strip(e)
+            while isinstance(e, tuple) and e and e[0] in ("field", "deref", "ref"):
+                e = strip(e[1])
+            return e == ("param", 1)
+        appends, others = [], []
+        for bi, t in wb.calls():
+            cv = CalleeView(t["callee"])
+            a = ow.call_args(bi)
+            if not any(_self_rooted(x) for x in a) or cv.short in READS:
+                continue
+            if cv.short == "std::vec::Vec::extend_from_slice" and strip(a[0]) == ("field", ("param", 1), "inner") and core(a[1]) == ("param", 2):
+                appends.append(bi)
+            else:
+                others.append("%s (%s)" % (cv.short, wb.where(bi)))
+        stores = [wb.where(bi, si) for bi, blk in enumerate(wb.blocks) for si, st in enumerate(blk["stmts"])
+                  if st["k"] == "assign" and st["p"]["proj"] and st["p"]["proj"][0]["k"] == "deref" and st["p"]["l"] == 1]
+        ctx.check(len(appends) == 1 and not others and not stores, R, ("write_all", "appends-at-position"), wb.where(0),
+                  "write_all changes the image by appending the caller's bytes at position() and in no other way",
+                  "write_all does not simply append the caller's bytes at position(): %d plain append(s), other changes to the image: %s" % (len(appends), others + stores))
 
 
 def first_buffer_growth_after(b, start):
